@@ -122,7 +122,7 @@ def streams(tier, rng):
         for sh, path in SHAPES[1::2]:
             run.append(case_line(T, 2 * T, 3, sh, path, rng.getrandbits(32), rng.choice([1, 2, 3, 4]), slow=rng.randrange(T), test=1))
     while len(run) < n_run:
-        T = rng.choice([2, 2, 3, 3, 4, 8])
+        T = rng.choice([2, 2, 3, 3, 4, 8] + ([16, 32] if not quick else []))
         sh, path = rng.choice(SHAPES)
         n = rng.choice([1, 1, 2, 3, 4])
         S = rng.choice([1, T, T, 2 * T, 2 * T + 1, 3 * T])
@@ -153,7 +153,7 @@ def streams(tier, rng):
             pan.append(case_line(T, T, 1, sh, path, rng.getrandbits(32), 1, fault=f"{T - 1}:0:c:0", test=1))
     if not quick:
         for _ in range(600):
-            T = rng.choice([2, 3, 4, 8])
+            T = rng.choice([2, 3, 4, 8, 16])
             sh, path = rng.choice(SHAPES)
             n = rng.choice([1, 2, 3])
             S = T * rng.choice([1, 2, 3])
@@ -182,7 +182,9 @@ BFS_GUARD = [
     "T=3 R=1 n=1 sh=00", "T=3 R=1 n=1 sh=11", "T=3 R=1 n=2 sh=00", "T=3 R=2 n=1 sh=10",
 ]
 BFS_GUARD_THOROUGH = ["T=3 R=2 n=2 sh=11", "T=4 R=1 n=1 sh=00", "T=4 R=1 n=1 sh=11", "T=3 R=1 n=3 sh=01"]
-BFS_OLD = ["T=2 R=1 n=1 sh=00 guard=0", "T=3 R=1 n=1 sh=00 guard=0"]
+BFS_OLD = ["T=2 R=1 n=1 sh=00 guard=0", "T=3 R=1 n=1 sh=00 guard=0",
+           # ThreadAllocInfo::current() None on thread 1 only: that thread skips the second wait (latent hazard)
+           "T=2 R=1 n=1 sh=00 noinfo=1", "T=3 R=1 n=1 sh=00 noinfo=1"]
 
 
 def post(tier, rng, api):
@@ -200,7 +202,7 @@ def post(tier, rng, api):
     for c, l in zip(cases, lines):
         d = dict(t.split("=", 1) for t in l.split(" ") if "=" in t)
         per.append({"instance": c, **d})
-        if "guard=0" in c:
+        if "guard=0" in c or "noinfo=" in c:
             # the pre-fix protocol: the explorer must see its deadlocks (F5), else it is blind
             if d.get("deadlocks", "0") == "0":
                 problem = problem or f"explorer found no deadlock in the pre-fix protocol ({c}): {l}"
